@@ -241,7 +241,7 @@ class C11(Prop):
         # round 4
         "cg_statistics_are_of_the_proved_run", "cg_terminates_within_max_iterations", "cg_descends_unless_brent_loses_the_bracket_point",
         "weibull_objective_is_neg_loglik", "weibull_loglik_derivatives", "weibull_fit_optimality_certificate", "weibull_stationary_is_global_maximiser_partial",
-        "weibull_sxp_fit_parameters_positive", "gamma_rate_is_maximiser", "truncated_gumbel_gradient_is_derivative",
+        "weibull_sxp_fit_parameters_positive", "gamma_rate_is_maximiser", "truncated_gumbel_gradient_is_derivative", "exp_binned_fit_is_maximiser", "exp_binned_loglik_closed_form",
         "set_expect_fills_all_bins", "expected_tail_emin_in_range", "goodness_never_faults", "goodness_accounts_for_its_counts",
         "plot_accounts_for_data", "plot_survival_accounts_for_data", "plot_qq_in_bounds", "declare_rounding_keeps_the_data")]
     claimed = True
@@ -1603,6 +1603,22 @@ class C11(Prop):
             cal[kind] = max(cal.get(kind, 0.0), ratio)
             if ratio > rt:
                 return "%s fit (n=%d): logL%r=%r but nearby %r has logL=%r" % (kind, n, tuple(p0), base, tuple(bp), best)
+            if kind == "weibull":
+                # stationarity, measured: the partial derivatives of the Weibull log-likelihood (theorem weibull_loglik_derivatives) at the returned point,
+                # per sample, in the optimiser's variables (log lambda, log tau). By weibull_fit_optimality_certificate they bound the distance from THE global maximum.
+                try:
+                    w_, tau_ = math.log(p0[0]), p0[1]
+                    ls_ = [math.log(x - mu) for x in xs if x != mu]
+                    es_ = [math.exp(tau_ * (w_ + l)) for l in ls_]
+                    dw = math.fsum(tau_ - tau_ * e for e in es_)
+                    dt = math.fsum(1 / tau_ + w_ + l - (w_ + l) * e for l, e in zip(ls_, es_))
+                    g = max(abs(dw), abs(tau_ * dt)) / max(1, len(ls_))
+                    cal["weibull_gradient_per_sample"] = max(cal.get("weibull_gradient_per_sample", 0.0), g)
+                    if g > self.WEIBULL_GRAD_TOL:
+                        return "weibull fit (n=%d): eslOK at (lambda=%r, tau=%r) where the log-likelihood is not stationary: per-sample derivatives (d/dlog lambda, d/dlog tau) = (%.3g, %.3g)" % (
+                            n, p0[0], p0[1], dw / len(ls_), tau_ * dt / len(ls_))
+                except (OverflowError, ValueError, ZeroDivisionError):
+                    pass
             if kind == "weibull" and meta.get("law") == "weibull" and meta.get("src") == "grid" and meta.get("mod") == "none" and n >= 300:
                 if abs(p0[0] / meta["lambda"] - 1) > 0.2 or abs(p0[1] / meta["tau"] - 1) > 0.2:
                     return "weibull fit on the exact quantile grid of (lambda=%r,tau=%r) recovered (%r,%r)" % (meta["lambda"], meta["tau"], p0[0], p0[1])
@@ -1611,6 +1627,7 @@ class C11(Prop):
     # tolerated relative error of (scale, shape) on the exact quantile grid of the family itself, n >= 300 (calibrated: about
     # 3x the largest error seen on the clean tree over the parameter grid; the discretisation error of a 300-point grid with the
     # location pinned to the smallest point is a few per cent for the peaked laws)
+    WEIBULL_GRAD_TOL = 0.05     # about 30x the largest value seen on the clean tree (1.6e-3 over quick seeds 1-3)
     REC_TOL = {"exp": (0.02,), "gumbel": (0.02, 0.02), "lognormal": (0.01, 0.02), "weibull": (0.30, 0.30), "gamma": (0.06, 0.06),
                "sxp": (0.08, 0.06), "gev": (0.15, 0.12, 0.08)}
 
